@@ -187,6 +187,9 @@ def run(modname, prop, tier, seed, jobs):
     shards = list(mod.plan(tier))
     order = list(range(len(shards)))
     random.Random(seed).shuffle(order)
+    # heavy shards first (stable: the seed still permutes equal weights)
+    order.sort(key=lambda i: -(shards[i].get('weight', 0)
+                               if isinstance(shards[i], dict) else 0))
     jobs = max(1, min(jobs, len(shards)))
     results = [None] * len(shards)
     ctxmp = multiprocessing.get_context('fork')
